@@ -51,6 +51,17 @@ CHECKS = {
         "Trusted: Pandas evaluation of deliberately simple null-free pipelines as the expected value of execute().",
         "4/C20",
     ),
+    "C13": (
+        "differential monitor: CPython eval vs interpreter of the parsed tree; print/parse round trip",
+        "Every expression text of a bounded grammar slice (all flat operator sequences with <=3/4 binary operators, "
+        "all unary-minus subsets, all single parenthesised spans, method suffixes, boolean connective layer) plus "
+        "random larger mixes is parsed by the real parser; the tree's value (own 40-line interpreter, Python operator "
+        "per node) is compared with CPython's eval of the same text on 5 operand tuples, and print->parse must give an "
+        "equal tree with the same value.",
+        "Trusted: CPython as the meaning of the text; the tree interpreter; operand tuples avoid domains where Python "
+        "and the DSL legitimately differ.",
+        "4/C13",
+    ),
 }
 
 NOT_BUILT = "check not built yet (build in progress, see DESIGN.md section 8)"
